@@ -23,6 +23,7 @@ PRUNE = [
     H("H_C04_prune_filter", "two draws of Bool().Filter(id) on 6/7 symbolic words -> prune -> replay", reach=["valid", "invalid", "pruned-something"], quick=Q, thorough=T),
     H("H_C04_prune_perm", "Permutation of 3 elements (unbiased rejection loop) on 8/10 symbolic words -> prune -> replay", reach=["valid", "invalid", "pruned-something"], quick=Q, thorough=T),
     H("H_C04_prune_repeat", "T.Repeat with 1..2 actions, each a symbolic 3-opcode program over {return, draw bool, Errorf, Skip}, -rapid.steps=2, whole test case through checkOnce on 9/12 symbolic words -> prune -> replay: same verdict, same failure message, same re-recording", reach=["valid", "invalid", "failed", "pruned-something"], quick=Q, thorough=T),
+    H("H_C04_prune_repeatFilter", "T.Repeat with one action that starts with Bool().Filter(id).Draw (may exhaust its 5 tries) followed by 2 symbolic opcodes, on 14/18 symbolic words -> prune -> replay", reach=["valid", "invalid", "failed", "pruned-something"], quick=Q, thorough=T),
 ]
 PRUNE_MORE = [
     H("H_C04_prune_intReject", "one bounded integer draw genUintRange(min,max,bias) for any 64-bit range (span bit length: 16 classes quick / all thorough), biased and unbiased, followed by a raw 64-bit draw, on 13/20 symbolic words (up to 11/18 rejected samples) -> prune -> replay", reach=["valid", "invalid", "pruned-something"], quick=Q, thorough=T),
@@ -130,8 +131,8 @@ PROPS = {
     "C06": {
         "level": "model_checking",
         "harnesses": [
-            H("H_C06_rerun", "two-run history on the in-memory file system: real checkTB (checks=1, shrinktime 0, -rapid.nofailfile both ways, 3 (quick) / 11 (thorough) test names incl. unicode, separators, glob metacharacters, reserved names) with a data-dependent property on a symbolic PRNG word, then a second checkTB on the resulting file system", reach=["run1-failed", "run1-not-failed", "nofailfile"], native=False, quick=Q, thorough=T),
-            H("H_C06_twoChecks", "a test that calls Check twice (first passes and draws two words, second fails on one word): two runs of the test on the in-memory file system; the second Check's persisted failure is an invalid test case for the first Check and must survive it and be replayed first", reach=["b-failed", "b-not-failed"], native=False, quick=Q, thorough=T),
+            H("H_C06_rerun", "two-run history on the in-memory file system: real checkTB (checks=1, shrinktime 0, -rapid.nofailfile both ways, 3 (quick) / 11 (thorough) test names incl. unicode, separators, glob metacharacters, reserved names) with a data-dependent property on a symbolic PRNG word, then a second checkTB on the resulting file system", reach=["run1-failed", "run1-not-failed", "nofailfile"], native=False, quick=Q, thorough=T, search=["env.maphash", "env.maphash#1"]),
+            H("H_C06_twoChecks", "a test that calls Check twice (first passes and draws two words, second fails on one word): two runs of the test on the in-memory file system; the second Check's persisted failure is an invalid test case for the first Check and must survive it and be replayed first", reach=["b-failed", "b-not-failed"], native=False, quick=Q, thorough=T, search=["env.maphash", "env.maphash#1", "env.maphash#2", "env.maphash#3"]),
             H("H_C06_roundtripLong", "real saveFailFile -> loadFailFile with a 600-word counterexample (about 11 KB of data lines, several refills of the scanner buffer), first/middle/last word and seed symbolic, short or 8 KB captured output", reach=["loaded"], quick=Q, thorough=T),
             H("H_C06_roundtrip", "real saveFailFile -> loadFailFile over the in-memory file system (real bufio.Scanner code executed); seed and <=2 bitstream words symbolic 64-bit; captured output = 0..2 (quick) / 0..3 (thorough) lines chosen by the solver from 10 representative lines (lengths 0,1,..,65533,65534,65535,70000; comment-like, data-like, version-like, blank, CR contents), with/without trailing newline", reach=["loaded"], quick=Q, thorough=T),
         ],
